@@ -83,8 +83,12 @@ def _c09(payload):
             # the "continue" flags are handed over as the literal False, as numpy.bool_ False or as 0 (what `k == 0` on a numpy integer, or a
             # flag column of a scenario table, gives): all mean "do not re-initialise"
             no = (False, np.False_, 0)[(j + calls) % 3] if j % 3 == 2 else False
+            tsc_before = int(m._clock_struct.time_step_counter)
             r = m.run_model(num_steps=(np.int64(k) if j % 3 == 2 and calls % 2 else int(k)), initialize_model=no, process_outputs=no)
             calls += 1
+            if not m._clock_struct.model_is_finished and int(m._clock_struct.time_step_counter) < tsc_before + int(k):
+                viol.append(V("C09:progress", "a call of %d step(s) from step %d left the model at step %d (continue flag %r)" % (int(k), tsc_before, int(m._clock_struct.time_step_counter), no), partition=ks, between=busy))
+                break
             if busy and calls <= 8:
                 _other_model(objs, cfg, calls)
                 m.get_water_flux(); m.get_crop_growth(); m.get_water_storage()
